@@ -72,7 +72,7 @@ def resolve(fq: str):
     raise ImportError(fq)
 
 
-PLAIN_SNAPSHOT = {"MemoryWorkflowStore"}
+PLAIN_SNAPSHOT = {"MemoryWorkflowStore", "_ControlLoopRunner", "FakeAdapter"}
 
 
 def safe_deepcopy(x, _depth=0):
